@@ -317,6 +317,46 @@ theorem reload_rejects_dangling (uids : List String) (cxs : List (String × Stri
   refine ⟨c, hc, ?_⟩
   rcases hmiss with h | h <;> simp [h]
 
+/-! ### what the export keeps: lumped losses of fibres, design bands of ROADMs -/
+
+/-- export + reload is the identity on the lumped losses of a fibre (positions and values), hence on their sum, and on
+`att_in` and the connector losses: nothing of the span's discrete losses is lost in a saved design -/
+theorem export_keeps_lumped_losses (p : FiberP ℝ) :
+    (exportFiber p).lumps = p.lumps ∧ (exportFiber p).lumped = p.lumped ∧ (exportFiber p).attIn = p.attIn ∧
+    (exportFiber p).conIn = p.conIn ∧ (exportFiber p).conOut = p.conOut := by
+  simp [exportFiber, FiberP.lumped]
+
+/-- the export as it was before the repair lost them: a 149 km fibre with lumped 0.5 dB + 2 dB came back 2.5 dB shorter
+(the witness of the finding export-drops-lumped-losses) -/
+theorem export_drops_lumped_losses_fails_old :
+    ∃ p : FiberP ℝ, (exportFiberOld p).lumped = 0 ∧ p.lumped = 5 / 2 := by
+  refine ⟨{ length := 149000, lossCoef := 0.0002, conIn := some 0.5, conOut := some 0, attIn := 3,
+            lumps := [(1, 0.5), (12.13, 2)], raman := false, ramanGain := none, dsl := none }, ?_, ?_⟩
+  · simp [exportFiberOld, FiberP.lumped, sumLeft_eq_sum]
+  · simp only [FiberP.lumped, sumLeft_eq_sum]
+    norm_num
+
+/-- export + reload is the identity on the design bands a user gave to a ROADM (one or several) -/
+theorem export_reload_design_bands (si : DesignBand) (bs : List DesignBand) (h : bs ≠ []) :
+    reloadBands si (exportBands bs) = bs := by
+  simp [reloadBands, exportBands, h]
+
+/-- ... so the reloaded network is designed for the same load: the channel count of a single own design band, counted
+with that band's own spacing, is the same before and after export/reload -/
+theorem export_reload_design_load (nbRef : Option Int) (si b : DesignBand) :
+    reloadedChannels nbRef si (exportBands [b]) = designChannels nbRef b.fmin b.fmax b.spacing := by
+  simp [reloadedChannels, reloadBands, exportBands]
+
+/-- the export as it was before the repair wrote design bands only when there were several: a ROADM with ONE own band on
+a 100 GHz grid (38 channels) came back with the band of the SI section (76 channels) - the witness of the finding
+export-drops-single-design-band -/
+theorem export_single_design_band_fails_old :
+    ∃ si b : DesignBand, reloadedChannels none si (exportBandsOld [b]) = 76 ∧
+      designChannels none b.fmin b.fmax b.spacing = 38 := by
+  refine ⟨⟨191300000000000, 195100000000000, 50000000000⟩, ⟨191300000000000, 195100000000000, 100000000000⟩, ?_, ?_⟩
+  · decide
+  · decide
+
 /-! ### non-vacuity -/
 
 /-- `FitsAll` and the offset hypothesis of `redesign_fixpoint` hold for a two-amplifier OMS (auto booster, preamp) -/
